@@ -9,10 +9,8 @@
      Forall ev_wf evs  a new-config event's new config carries its serial and
                        its old config the previous one
      reg_once h evs    handle h is registered at most once
-   The first two hold for everything the monitor submits, in every history
-   (monitor_events_well_formed below; dropping events on overflow and
-   interleaving registrations keeps both); the third is the API's (each
-   RegisterCallback creates a fresh handle). *)
+   All three are proved for the queue of the whole system in every schedule
+   (queue_well_formed, handles_enqueued_once below). *)
 From Coq Require Import List NArith Bool.
 From Dials Require Import Base.Outcome Core.CbMgr Core.Monitor Core.System Core.CbMgrProofs Core.MonitorProofs
   Core.SystemProofs Core.QueueProofs.
@@ -164,20 +162,29 @@ Theorem sys_old_is_predecessor : forall (cfg sv : Type) (stack : list sv -> opti
   (forall h old cu, ~ In (OInv (InvUser h old None cu)) (cb_hist (s_log s))).
 Proof. exact @sys_old_is_predecessor_l. Qed.
 
-(* partial: reg_once for the queue content is a hypothesis here (the API makes a
-   fresh handle per RegisterCallback; that this reaches the queue at most once
-   is not mechanised) *)
-Theorem sys_never_stale_partial : forall (cfg sv : Type) (stack : list sv -> option cfg) (verify : cfg -> bool)
+(* every handle reaches the queue at most once (each RegisterCallback makes a
+   fresh handle and enqueues it at most once) *)
+Theorem handles_enqueued_once : forall (cfg sv : Type) (stack : list sv -> option cfg) (verify : cfg -> bool)
     (p : params) (on_new on_err : bool) (cbcap : N) (inits : list sv) (watching : list bool)
     (s0 : sys cfg sv) (ls : list (label sv)) (s : sys cfg sv) (h : N),
   snd (sys_init stack verify p inits watching) = Ok s0 ->
   run stack verify p on_new on_err cbcap s0 ls = Some s ->
-  reg_once h (enq_of (s_log s)) ->
+  reg_once h (enq_of (s_log s)).
+Proof. exact @handles_enqueued_once_l. Qed.
+
+(* never stale, for every schedule of the whole system: the serials a handle
+   has been called with strictly increase and exceed the serial it registered
+   with; a handle whose registration has not been processed has not been called *)
+Theorem sys_never_stale : forall (cfg sv : Type) (stack : list sv -> option cfg) (verify : cfg -> bool)
+    (p : params) (on_new on_err : bool) (cbcap : N) (inits : list sv) (watching : list bool)
+    (s0 : sys cfg sv) (ls : list (label sv)) (s : sys cfg sv) (h : N),
+  snd (sys_init stack verify p inits watching) = Ok s0 ->
+  run stack verify p on_new on_err cbcap s0 ls = Some s ->
   match first_reg h (taken_of (s_log s)) with
   | Some tok => sorted_above (tok_serial tok) (deliveries h (cb_hist (s_log s)))
   | None => deliveries h (cb_hist (s_log s)) = []
   end.
-Proof. exact @sys_never_stale_partial_l. Qed.
+Proof. exact @sys_never_stale_l. Qed.
 
 Print Assumptions never_stale.
 Print Assumptions catchup_iff.
@@ -194,4 +201,5 @@ Print Assumptions callback_history_is_fold.
 Print Assumptions queue_well_formed.
 Print Assumptions sys_callbacks_in_install_order.
 Print Assumptions sys_old_is_predecessor.
-Print Assumptions sys_never_stale_partial.
+Print Assumptions handles_enqueued_once.
+Print Assumptions sys_never_stale.
